@@ -630,6 +630,76 @@ func genConc(r *vlib.R, tier string, emit func(string)) {
 	emit(fmt.Sprintf("conc run %d %d %d %d %d %d", r.Range(4, 8), capv, r.Range(2, 8), r.Range(500, maxOps), keyspace, r.U64()>>1))
 }
 
+// genSparse: capacities far below the number of segments. Every resident sits
+// in ONE segment a, the writer's key in segment b = a+delta with delta running
+// over the whole ring (the segment right after, right BEFORE, opposite,
+// anywhere): the writer's own segment cannot pay the toll, so the neighbour
+// walk has to find segment a wherever it lies relative to b.
+func genSparse(r *vlib.R, emit func(string)) {
+	useCache := r.Bool()
+	capv := r.Range(1, 4)
+	var cnt uint
+	var segOf func(k uint64) uint
+	if useCache {
+		emit(fmt.Sprintf("cache new %d", capv))
+		inner := cache.VerifCacheSegMap(cc)
+		cnt = uint(inner.SegmentCount())
+		segOf = func(k uint64) uint { return cache.VerifSegIndex(inner, k) }
+	} else {
+		emit(fmt.Sprintf("segmap new %d 0", vlib.Pick(r, []int{4, 6, 8})))
+		cnt = uint(sm.SegmentCount())
+		segOf = func(k uint64) uint { return cache.VerifSegIndex(sm, k) }
+	}
+	used := map[uint64]bool{}
+	add := func(k uint64) {
+		if useCache {
+			emit(fmt.Sprintf("cache add %d %d", k, r.Range(1, 12)))
+			var v []uint64
+			if cPend != nil {
+				v = cPend.victims
+			}
+			emit(fmt.Sprintf("cache evicted %d %s", k, joinKeys(v)))
+		} else {
+			emit(fmt.Sprintf("segmap setcap %d %d %d", k, val(r), capv))
+			var v []uint64
+			if sPend != nil {
+				v = sPend.victims
+			}
+			emit(fmt.Sprintf("segmap evicted %d %d %s", k, capv, joinKeys(v)))
+		}
+	}
+	clearAll := func() {
+		if useCache {
+			for _, k := range sortedKeysU(cRef) {
+				emit(fmt.Sprintf("cache remove %d", k))
+			}
+		} else {
+			emit("segmap clear")
+		}
+	}
+	deltas := []uint{1, cnt - 1, 2, cnt - 2, cnt / 2, uint(1 + r.Intn(int(cnt)-1)), uint(1 + r.Intn(int(cnt)-1))}
+	for _, d := range deltas {
+		a := uint(r.Intn(int(cnt)))
+		b := (a + d) % cnt
+		res := collideSearch(r, used, capv, func(k uint64) bool { return segOf(k) == a })
+		for _, k := range res {
+			add(k) // fills to capacity, all in segment a
+		}
+		ws := collideSearch(r, used, r.Range(1, 3), func(k uint64) bool { return segOf(k) == b })
+		for _, k := range ws {
+			add(k) // over capacity from a segment that holds nothing else
+		}
+		if useCache {
+			emit("cache len")
+			emit("cache reach")
+		} else {
+			emit("segmap len")
+			emit("segmap reach")
+		}
+		clearAll()
+	}
+}
+
 // genStall: "writers never wait on a global lock" scenarios (see stall.go).
 func genStall(r *vlib.R, tier string, emit func(string)) {
 	emit("conc new")
@@ -651,6 +721,9 @@ func genStall(r *vlib.R, tier string, emit func(string)) {
 		emit(fmt.Sprintf("conc limrace %d %d", mode, r.U64()>>1))
 	}
 	emit(fmt.Sprintf("conc limrace 0 %d", r.U64()>>1))
+	// the expiry-cleanup route of the answer caches racing a republishing writer
+	emit(fmt.Sprintf("conc expire neg 3000 %d", r.U64()>>1))
+	emit(fmt.Sprintf("conc expire pos 3000 %d", r.U64()>>1))
 	if tier == "thorough" {
 		for mode := 0; mode <= 3; mode++ {
 			for i := 0; i < 6; i++ {
@@ -921,6 +994,8 @@ func gen(r *vlib.R, n int, tier string, emit0 func(string)) {
 		genConc(r, tier, emit)
 	}
 	genStall(r, tier, emit)
+	genSparse(r, emit)
+	genSparse(r, emit)
 	genLimChurn(r, tier, emit)
 	genUmapLong(r, emit)
 	genSegLong(r, emit)
@@ -935,8 +1010,10 @@ func gen(r *vlib.R, n int, tier string, emit0 func(string)) {
 	start := count
 	for count-start < n {
 		switch x := r.Intn(100); {
-		case x >= 98:
+		case x >= 99:
 			genUmapLong(r, emit)
+		case x >= 97:
+			genSparse(r, emit)
 		case x >= 95:
 			genSegLong(r, emit)
 		case x < 50:
